@@ -19,7 +19,7 @@ func Specs() map[string]*PropSpec {
 			vt("VerifC09_Disjunct", "na", "2", "nb", "2"), vt("VerifC09_Disjunct", "na", "1", "nb", "2", "denoms", "2"),
 			vt("VerifC09_Conjunct", "na", "2", "nb", "2"), vt("VerifC09_Conjunct", "na", "2", "nb", "1", "denoms", "2"),
 			vt("VerifC09_AccountSplit", "nl", "2", "nv", "2"), vt("VerifC09_Clawback", "nl", "2", "nv", "2"), vt("VerifC09_Clawback", "nl", "1", "nv", "2", "denoms", "2"),
-			vk("VerifC09_MergeGrant"), vk("VerifC09_MergeGrant", "lock", "2", "glock", "2"), vk("VerifC09_ClawbackMsg"), vk("VerifC09_FunderUpdate"),
+			vk("VerifC09_MergeGrant"), vk("VerifC09_MergeGrant", "lock", "2", "glock", "2"), vk("VerifC09_ClawbackMsg"), vk("VerifC09_FunderUpdate"), vk("VerifC09_BalancesQuery"),
 		},
 		Thorough: []Inst{
 			vt("VerifC09_Read", "n", "5"), vt("VerifC09_Read", "n", "4", "denoms", "2"),
@@ -27,10 +27,10 @@ func Specs() map[string]*PropSpec {
 			vt("VerifC09_Disjunct", "na", "3", "nb", "3"), vt("VerifC09_Disjunct", "na", "2", "nb", "2", "denoms", "2"),
 			vt("VerifC09_Conjunct", "na", "3", "nb", "3"), vt("VerifC09_Conjunct", "na", "2", "nb", "2", "denoms", "2"),
 			vt("VerifC09_AccountSplit", "nl", "3", "nv", "3"), vt("VerifC09_Clawback", "nl", "3", "nv", "3"), vt("VerifC09_Clawback", "nl", "2", "nv", "2", "denoms", "2"),
-			vk("VerifC09_MergeGrant", "lock", "2", "vest", "2", "glock", "2", "gvest", "1"), vk("VerifC09_MergeGrant", "lock", "1", "vest", "2", "glock", "2", "gvest", "2"), vk("VerifC09_ClawbackMsg", "lock", "3", "vest", "2"), vk("VerifC09_FunderUpdate"),
+			vk("VerifC09_MergeGrant", "lock", "2", "vest", "2", "glock", "2", "gvest", "1"), vk("VerifC09_MergeGrant", "lock", "1", "vest", "2", "glock", "2", "gvest", "2"), vk("VerifC09_ClawbackMsg", "lock", "3", "vest", "2"), vk("VerifC09_FunderUpdate"), vk("VerifC09_BalancesQuery", "lock", "3", "vest", "3"),
 		},
 		Bounds: map[string]string{
-			"quick":    "period lists of length <= 3 (read/monotone), 2+2 (merge/cap) with 1 denom and 2+1 with 2 denoms; start in [0,2^60], each length in [0,2^56], read time in [0,2^61], each amount in [0,2^128); keeper level: ApplyVestingSchedule(merge) of a grant with its own start time and <= 2 lockup / 1 vesting periods into an account with <= 2 lockup / 1 vesting periods, the Clawback message on a 2+2 account (signer = funder or not, explicit or default destination), UpdateVestingFunder followed by a clawback attempt of the old funder; start times in [0,2^40], lengths in [0,2^36], amounts < 2^100",
+			"quick":    "period lists of length <= 3 (read/monotone), 2+2 (merge/cap) with 1 denom and 2+1 with 2 denoms; start in [0,2^60], each length in [0,2^56], read time in [0,2^61], each amount in [0,2^128); keeper level: ApplyVestingSchedule(merge) of a grant with its own start time and <= 2 lockup / 1 vesting periods into an account with <= 2 lockup / 1 vesting periods, the Clawback message on a 2+2 account (signer = funder or not, explicit or default destination), UpdateVestingFunder followed by a clawback attempt of the old funder; start times in [0,2^40], lengths in [0,2^36], amounts < 2^100; Query/Balances of an account with 2 lockup and 2 vesting periods (with and without tracked delegations): locked / vested / unvested are exactly the schedule reads at the block time",
 			"thorough": "period lists of length <= 5 (read/monotone), 3+3 with 1 denom and 2+2 with 2 denoms (merge/cap); same value ranges",
 		},
 		Outside:     []string{"more periods than the structural bound", "times beyond 2^61 s (int64 overflow of start+sum of lengths)", "more than 2 denominations", "keeper level: delegated coins of the account (staking getters return zero), sequences of more than one keeper message (each message is decided from an arbitrary valid account), the exact-sum clause of a merge before both schedules have started (not required by the statement)"},
@@ -71,11 +71,13 @@ func Specs() map[string]*PropSpec {
 	}
 	ck := func(fn string, kv ...string) Inst { return Inst{Pkg: "x/coinomics/keeper", Fn: fn, Params: pm(kv...)} }
 	m["C13"] = &PropSpec{
-		ID: "C13", Pkgs: []string{"./x/coinomics/keeper", "./x/coinomics"},
-		Quick:    []Inst{ck("VerifC13_Mint"), ck("VerifC13_Disabled"), ck("VerifC13_Reactivation"), {Pkg: "x/coinomics", Fn: "VerifC19_Coinomics", Params: pm()}},
-		Thorough: []Inst{ck("VerifC13_Mint", "years", "all"), ck("VerifC13_Disabled"), ck("VerifC13_Reactivation"), {Pkg: "x/coinomics", Fn: "VerifC19_Coinomics", Params: pm()}},
+		ID: "C13", Pkgs: []string{"./x/coinomics/keeper", "./x/coinomics", "./app"},
+		Quick:    []Inst{ck("VerifC13_Mint"), ck("VerifC13_Disabled"), ck("VerifC13_Reactivation"), ck("VerifC13_ParamsAdmitMint"), {Pkg: "x/coinomics", Fn: "VerifC19_Coinomics", Params: pm()}},
+		Thorough: []Inst{ck("VerifC13_Mint", "years", "all"), ck("VerifC13_Disabled"), ck("VerifC13_Reactivation"), ck("VerifC13_ParamsAdmitMint"), {Pkg: "x/coinomics", Fn: "VerifC19_Coinomics", Params: pm()}},
+		Wiring: []WiringFact{{Kind: "order", Fn: "github.com/haqq-network/haqq/app.NewHaqq", Callee: "(*github.com/cosmos/cosmos-sdk/types/module.Manager).SetOrderEndBlockers", Want: "staking<coinomics",
+			Why: "the mint step reads the bonded total in the coinomics end blocker: it must run after the staking end blocker, which moves tokens between the bonded and not-bonded pools when the validator set changes (otherwise the block mints on a stale bonded total)", ProbePkg: "app", ProbeTest: "TestVerifWiringC13"}},
 		Bounds: map[string]string{
-			"quick":    "one EndBlocker step from an arbitrary state: bonded, supply, max supply in [0,2^100), reward coefficient any Dec in [0,100], previous timestamp in [0,2^45) ms, block time anywhere inside each of the calendar years {1970,1999,2000,2023,2024,2100,2104,2200,2300,2399}; two-step history disable -> enable; block sequences across a restart: export / import of the module state keeps the previous block timestamp, the maximum supply and the parameters (VerifC19_Coinomics, as C19), so the step after a restart is the step above from the same state",
+			"quick":    "one EndBlocker step from an arbitrary state: bonded, supply, max supply in [0,2^100), reward coefficient any Dec in [0,100], previous timestamp in [0,2^45) ms, block time anywhere inside each of the calendar years {1970,1999,2000,2023,2024,2100,2104,2200,2300,2399}; two-step history disable -> enable; block sequences across a restart: export / import of the module state keeps the previous block timestamp, the maximum supply and the parameters (VerifC19_Coinomics, as C19), so the step after a restart is the step above from the same state; every reward coefficient in [-100,100] that the real Params.Validate accepts: an enabled block below the cap records its timestamp and mints a non-negative amount",
 			"thorough": "same with the block time anywhere inside every calendar year 1970..2399",
 		},
 		Outside:     []string{"block times after 2400 or before 1970", "distribution of the fee collector balance by x/distribution", "histories longer than two steps (single-step facts are inductive: they are proved from an arbitrary pre-state)"},
@@ -85,10 +87,10 @@ func Specs() map[string]*PropSpec {
 	dk := func(fn string, kv ...string) Inst { return Inst{Pkg: "x/ucdao/keeper", Fn: fn, Params: pm(kv...)} }
 	m["C12"] = &PropSpec{
 		ID: "C12", Pkgs: []string{"./x/ucdao/keeper"},
-		Quick:    []Inst{dk("VerifC12_Fund", "accounts", "2"), dk("VerifC12_Transfer", "accounts", "2"), dk("VerifC12_Fund", "accounts", "2", "prefix", "1"), dk("VerifC12_Transfer", "accounts", "2", "prefix", "1")},
-		Thorough: []Inst{dk("VerifC12_Fund", "accounts", "3"), dk("VerifC12_Transfer", "accounts", "3"), dk("VerifC12_Fund", "accounts", "3", "prefix", "1"), dk("VerifC12_Transfer", "accounts", "2", "prefix", "1")},
+		Quick:    []Inst{dk("VerifC12_Fund", "accounts", "2"), dk("VerifC12_Transfer", "accounts", "2"), dk("VerifC12_Fund", "accounts", "2", "prefix", "1"), dk("VerifC12_Transfer", "accounts", "2", "prefix", "1"), dk("VerifC12_Transfer", "accounts", "2", "longaddr", "1")},
+		Thorough: []Inst{dk("VerifC12_Fund", "accounts", "3"), dk("VerifC12_Transfer", "accounts", "3"), dk("VerifC12_Fund", "accounts", "3", "prefix", "1"), dk("VerifC12_Transfer", "accounts", "2", "prefix", "1"), dk("VerifC12_Transfer", "accounts", "3", "longaddr", "1"), dk("VerifC12_Fund", "accounts", "2", "longaddr", "1")},
 		Bounds: map[string]string{
-			"quick":    "one message (Fund / TransferOwnership / WithRatio / WithAmount, any signer and recipient incl. the same account) from an arbitrary ledger satisfying the invariant over 2 accounts x 2 denominations; balances, wallet funds in [0,2^100), message amounts any 256-bit integer (zero and negative entries included), ratio any Dec in [-1,2]",
+			"quick":    "one message (Fund / TransferOwnership / WithRatio / WithAmount, any signer and recipient incl. the same account) from an arbitrary ledger satisfying the invariant over 2 accounts x 2 denominations; balances, wallet funds in [0,2^100), message amounts any 256-bit integer (zero and negative entries included), ratio any Dec in [-1,2]; the same with the denomination universe {aLIQUID1, aLIQUID10} (one a string prefix of the other) and, for transfers, with one holder being a 32-byte address whose last 20 bytes are another holder's address",
 			"thorough": "same over 3 accounts x 2 denominations",
 		},
 		Outside:     []string{"more accounts or denominations than the bound (the step is proved from an arbitrary invariant state, so longer histories over the bounded universe are covered)", "state left by a failing message (rolled back by the SDK: stated, not proved)", "queries / pagination"},
@@ -96,10 +98,10 @@ func Specs() map[string]*PropSpec {
 		Stubs:       []string{"c12Bank", "zzverif.MemStore"},
 	}
 	m["C08"] = &PropSpec{
-		ID: "C08", Pkgs: []string{"./x/vesting/types", "./x/staking/keeper", "./x/vesting/keeper", "./app/ante/evm", "./precompiles/staking"},
+		ID: "C08", Pkgs: []string{"./x/vesting/types", "./x/staking/keeper", "./x/vesting/keeper", "./app/ante/evm", "./precompiles/staking", "./x/evm/keeper"},
 		Quick: []Inst{vt("VerifC08_LockedCoins", "nl", "2", "nv", "2"), vt("VerifC08_LockedCoins", "nl", "1", "nv", "2", "denoms", "2"), vt("VerifC09_Clawback", "nl", "2", "nv", "2"),
 			{Pkg: "x/staking/keeper", Fn: "VerifC08_Delegate", Params: pm("nv", "2")}, vk("VerifC09_MergeGrant", "lock", "2", "glock", "2"), vk("VerifC09_ClawbackMsg"), {Pkg: "app/ante/evm", Fn: "VerifC08_EthAnte", Params: pm("msgs", "2")},
-			{Pkg: "precompiles/staking", Fn: "VerifC08_PrecompileDelegate", Params: pm("nv", "2"), EngineReplay: true}, {Pkg: "precompiles/staking", Fn: "VerifC08_PrecompileCreateValidator", Params: pm(), EngineReplay: true}},
+			{Pkg: "precompiles/staking", Fn: "VerifC08_PrecompileDelegate", Params: pm("nv", "2"), EngineReplay: true}, {Pkg: "precompiles/staking", Fn: "VerifC08_PrecompileCreateValidator", Params: pm(), EngineReplay: true}, {Pkg: "x/evm/keeper", Fn: "VerifC08_SelfDestructOfVestingContract", Params: pm(), EngineReplay: true}},
 		Wiring: []WiringFact{
 			{Kind: "calls", Fn: "(github.com/haqq-network/haqq/precompiles/staking.Precompile).Delegate", Callee: "github.com/haqq-network/haqq/x/staking/keeper.NewMsgServerImpl",
 				Why: "the staking precompile must delegate through Haqq's message-server wrapper (which refuses unvested coins), not through the SDK's"},
@@ -107,9 +109,9 @@ func Specs() map[string]*PropSpec {
 				Why: "the staking precompile must self-bond through Haqq's message-server wrapper (which refuses unvested coins), not through the SDK's"},
 		},
 		Thorough: []Inst{{Pkg: "precompiles/staking", Fn: "VerifC08_PrecompileDelegate", Params: pm("nv", "3"), EngineReplay: true}, {Pkg: "app/ante/evm", Fn: "VerifC08_EthAnte", Params: pm("msgs", "3")}, vt("VerifC08_LockedCoins", "nl", "3", "nv", "3"), vt("VerifC08_LockedCoins", "nl", "2", "nv", "2", "denoms", "2"), vt("VerifC09_Clawback", "nl", "3", "nv", "3"),
-			{Pkg: "x/staking/keeper", Fn: "VerifC08_Delegate", Params: pm("nv", "4")}},
+			{Pkg: "x/staking/keeper", Fn: "VerifC08_Delegate", Params: pm("nv", "4")}, {Pkg: "x/evm/keeper", Fn: "VerifC08_SelfDestructOfVestingContract", Params: pm(), EngineReplay: true}, {Pkg: "precompiles/staking", Fn: "VerifC08_PrecompileCreateValidator", Params: pm(), EngineReplay: true}},
 		Bounds: map[string]string{
-			"quick":    "LockedCoins and post-clawback locking for accounts with <= 2 lockup and <= 2 vesting periods (1-2 denoms), arbitrary tracked delegations, arbitrary block time; delegation wrapper: <= 2 vesting periods, arbitrary balance/amount/time, Delegate and CreateValidator; the locked amount after merging a grant (real addGrant) and after the Clawback message, at every instant; the eth-route vesting pre-check over <= 2 messages of one clawback account (2+2 period schedule, tracked delegation, any balance and values): accepted <=> total value <= balance - locked (two-sided); the staking precompile's delegate with Haqq's real message-server wrapper behind it (2 vesting periods, any balance / amount / time): the SDK server is reached only within balance - unvested",
+			"quick":    "LockedCoins and post-clawback locking for accounts with <= 2 lockup and <= 2 vesting periods (1-2 denoms), arbitrary tracked delegations, arbitrary block time; delegation wrapper: <= 2 vesting periods, arbitrary balance/amount/time, Delegate and CreateValidator; the locked amount after merging a grant (real addGrant) and after the Clawback message, at every instant; the eth-route vesting pre-check over <= 2 messages of one clawback account (2+2 period schedule, tracked delegation, any balance and values): accepted <=> total value <= balance - locked (two-sided); the staking precompile's delegate with Haqq's real message-server wrapper behind it (2 vesting periods, any balance / amount / time): the SDK server is reached only within balance - unvested; SELFDESTRUCT of a contract whose address holds a clawback vesting account (keeper DeleteAccount over a bank that enforces LockedCoins of the stored account): the deletion succeeds only when nothing is locked, a refused one changes nothing",
 			"thorough": "<= 3 + 3 periods; delegation wrapper <= 4 vesting periods",
 		},
 		Outside: []string{"that the SDK bank keeper refuses debits beyond balance - LockedCoins on every path (SDK code; the property reduces to LockedCoins being right, which is what is decided)", "the EVM debit path itself (x/evm SetBalance -> bank SendCoinsFromAccountToModule: SDK bank code)", "messages of several different vesting accounts in one transaction", "delegation through grants (ends in the same message server; the precompile path is executed)"},
@@ -137,10 +139,10 @@ func Specs() map[string]*PropSpec {
 		Stubs:       []string{"c14State (bank ledger)", "zzverif.MemStore", "blob codec"},
 	}
 	c19 := []Inst{{Pkg: "x/coinomics", Fn: "VerifC19_Coinomics", Params: pm()}, {Pkg: "x/feemarket", Fn: "VerifC19_Feemarket", Params: pm()},
-		{Pkg: "x/liquidvesting", Fn: "VerifC19_Liquidvesting", Params: pm("denoms", "2", "periods", "2")}, {Pkg: "x/ucdao/keeper", Fn: "VerifC19_Ucdao", Params: pm("accounts", "2")},
+		{Pkg: "x/liquidvesting", Fn: "VerifC19_Liquidvesting", Params: pm("denoms", "2", "periods", "2")}, {Pkg: "x/ucdao/keeper", Fn: "VerifC19_Ucdao", Params: pm("accounts", "3"), EngineReplay: true},
 		{Pkg: "x/evm", Fn: "VerifC19_Evm", Params: pm("accounts", "1")}, {Pkg: "x/evm", Fn: "VerifC19_Evm", Params: pm("accounts", "2", "varyParams", "0", "vals", "1")}, {Pkg: "x/erc20", Fn: "VerifC19_Erc20", Params: pm(), EngineReplay: true}}
 	c19t := []Inst{{Pkg: "x/coinomics", Fn: "VerifC19_Coinomics", Params: pm()}, {Pkg: "x/feemarket", Fn: "VerifC19_Feemarket", Params: pm()},
-		{Pkg: "x/liquidvesting", Fn: "VerifC19_Liquidvesting", Params: pm("denoms", "3", "periods", "3")}, {Pkg: "x/ucdao/keeper", Fn: "VerifC19_Ucdao", Params: pm("accounts", "3")},
+		{Pkg: "x/liquidvesting", Fn: "VerifC19_Liquidvesting", Params: pm("denoms", "3", "periods", "3")}, {Pkg: "x/ucdao/keeper", Fn: "VerifC19_Ucdao", Params: pm("accounts", "3"), EngineReplay: true},
 		{Pkg: "x/evm", Fn: "VerifC19_Evm", Params: pm("accounts", "2")}, {Pkg: "x/erc20", Fn: "VerifC19_Erc20", Params: pm(), EngineReplay: true}}
 	m["C19"] = &PropSpec{
 		ID: "C19", Pkgs: []string{"./x/coinomics", "./x/feemarket", "./x/liquidvesting", "./x/ucdao/keeper", "./x/evm", "./x/erc20"}, Quick: c19, Thorough: c19t,
@@ -149,7 +151,7 @@ func Specs() map[string]*PropSpec {
 			"thorough": "liquid vesting <= 3 denoms x 3 periods, UC DAO 3 accounts, x/evm 2 accounts with all parameter switches",
 		},
 		Outside:     []string{"x/evm beyond the bounded shapes (large code, many slots; the x/evm harness has concrete inputs after the symbolic choice: exhaustive enumeration of the bounded space), vesting accounts in x/auth, x/epochs (its InitGenesis re-anchors start height/time by design), app/export.go zero-height preparation", "protobuf/JSON encoding of the genesis document (typed blobs)"},
-		Assumptions: []string{"codec and gogoproto Marshal/Unmarshal are an inverse pair on typed blobs", "legacy param subspace = one typed blob"},
+		Assumptions: []string{"codec and gogoproto Marshal/Unmarshal are an inverse pair on typed blobs", "legacy param subspace = one typed blob", "types/query.Paginate replaced by an equivalent whose default page size is 2 instead of 100, so that state larger than one default page is within the bounds (ucdao: 3 holders)"},
 		Stubs:       []string{"zzverif.MemStore", "c19AK (account keeper returning module accounts)"},
 	}
 	an := func(kv ...string) Inst { return Inst{Pkg: "app/ante", Fn: "VerifC06_Routes", Params: pm(kv...)} }
@@ -167,9 +169,9 @@ func Specs() map[string]*PropSpec {
 	et := func(fn string) Inst { return Inst{Pkg: "x/evm/types", Fn: fn, Params: pm()} }
 	m["C18"] = &PropSpec{
 		ID: "C18", Pkgs: []string{"./x/evm/types"},
-		Quick: []Inst{et("VerifC18_RoundTrip"), et("VerifC18_Fees")}, Thorough: []Inst{et("VerifC18_RoundTrip"), et("VerifC18_Fees")},
+		Quick: []Inst{et("VerifC18_RoundTrip"), et("VerifC18_Fees"), et("VerifC18_RecordedHash")}, Thorough: []Inst{et("VerifC18_RoundTrip"), et("VerifC18_Fees"), et("VerifC18_RecordedHash")},
 		Bounds: map[string]string{
-			"quick":    "legacy, access-list and dynamic-fee transactions: nonce, gas any uint64; value, gas price / tip / fee cap, r, s any integer in [0,2^256); v, chain id in [0,2^64); data of 0..2 symbolic bytes; access lists {nil, empty, 1 tuple x 1 key, 3 tuples x (2,1,0) keys}; contract creation and call; base fee in [0,2^200)",
+			"quick":    "legacy, access-list and dynamic-fee transactions: nonce, gas any uint64; value, gas price / tip / fee cap, r, s any integer in [0,2^256); v, chain id in [0,2^64); data of 0..2 symbolic bytes; access lists {nil, empty, 1 tuple x 1 key, 3 tuples x (2,1,0) keys}; contract creation and call; base fee in [0,2^200); recorded hash: for one transaction of each type, a message whose Hash string is the canonical hash or one of four other spellings (upper case, no 0x prefix, over-long with the hash as suffix, all zero) passes ValidateBasic only when the string is exactly the canonical Ethereum hash",
 			"thorough": "same",
 		},
 		Outside:     []string{"BuildTx -> TxEncoder -> TxDecoder (protobuf Any packing and generated marshal code: typed blobs here)", "hash and sender recovery (RLP, keccak, secp256k1): functions of exactly the compared fields, not re-derived", "longer data / access lists than the bound"},
@@ -190,15 +192,15 @@ func Specs() map[string]*PropSpec {
 		Stubs:       []string{"c07NewEVM/c07Call/c07Create/c07Intrinsic", "c07Bank", "c07FeeMarket", "vEVMKeeper", "vFeeMarket"},
 	}
 	m["C03"] = &PropSpec{
-		ID: "C03", Pkgs: []string{"./app/ante/evm", "./app/ante/cosmos", "./x/evm/keeper", "./ethereum/eip712"},
+		ID: "C03", Pkgs: []string{"./app/ante/evm", "./app/ante/cosmos", "./x/evm/keeper", "./ethereum/eip712", "./x/vesting/keeper"},
 		Quick:    []Inst{{Pkg: "app/ante/evm", Fn: "VerifC03_Nonce", Params: pm("msgs", "3")}, {Pkg: "app/ante/cosmos", Fn: "VerifC03_Eip712Sequence", Params: pm(), EngineReplay: true},
 			{Pkg: "app/ante/evm", Fn: "VerifC03_EthChainID", Params: pm(), EngineReplay: true}, {Pkg: "x/evm/keeper", Fn: "VerifC03_ExecutionKeepsSequence", Params: pm(), EngineReplay: true},
-			{Pkg: "ethereum/eip712", Fn: "VerifC03_Eip712DirectCoverage", Params: pm(), EngineReplay: true}, {Pkg: "app/ante/cosmos", Fn: "VerifC03_Eip712LegacyCoverage", Params: pm(), EngineReplay: true}},
+			{Pkg: "ethereum/eip712", Fn: "VerifC03_Eip712DirectCoverage", Params: pm(), EngineReplay: true}, {Pkg: "app/ante/cosmos", Fn: "VerifC03_Eip712LegacyCoverage", Params: pm(), EngineReplay: true}, {Pkg: "x/vesting/keeper", Fn: "VerifC03_ScheduleKeepsAccountIdentity", Params: pm(), EngineReplay: true}},
 		Thorough: []Inst{{Pkg: "app/ante/evm", Fn: "VerifC03_Nonce", Params: pm("msgs", "4")}, {Pkg: "app/ante/cosmos", Fn: "VerifC03_Eip712Sequence", Params: pm(), EngineReplay: true},
 			{Pkg: "app/ante/evm", Fn: "VerifC03_EthChainID", Params: pm(), EngineReplay: true}, {Pkg: "x/evm/keeper", Fn: "VerifC03_ExecutionKeepsSequence", Params: pm(), EngineReplay: true},
-			{Pkg: "ethereum/eip712", Fn: "VerifC03_Eip712DirectCoverage", Params: pm(), EngineReplay: true}, {Pkg: "app/ante/cosmos", Fn: "VerifC03_Eip712LegacyCoverage", Params: pm(), EngineReplay: true}},
+			{Pkg: "ethereum/eip712", Fn: "VerifC03_Eip712DirectCoverage", Params: pm(), EngineReplay: true}, {Pkg: "app/ante/cosmos", Fn: "VerifC03_Eip712LegacyCoverage", Params: pm(), EngineReplay: true}, {Pkg: "x/vesting/keeper", Fn: "VerifC03_ScheduleKeepsAccountIdentity", Params: pm(), EngineReplay: true}},
 		Bounds: map[string]string{
-			"quick":    "Ethereum transactions of <= 3 messages by 2 senders in any interleaving (legacy and dynamic-fee), any nonces, any account sequences < 2^62; immediate replay of the accepted transaction; chain binding on the Ethereum route: one legacy (any v < 2^40), access-list or dynamic-fee (any chain id < 2^40) transaction through the signature decorator with go-ethereum's signer selection and chain-id check executed, AllowUnprotectedTxs on/off; execution (real ApplyMessageWithConfig, call or contract creation, any interpreter outcome, 0-3 later messages of the same transaction already accepted by the ante handler) leaves the sender's sequence exactly where the ante handler put it; EIP-712 over a SIGN_MODE_DIRECT sign doc (one bank message, any memo / timeout height / fee / payer / granter / sequence / account number, extension options of either kind): accepted => every such field reaches the sign bytes; legacy EIP-712 (Web3Tx) route: the real VerifySignature hands a different payload to the typed-data construction (or refuses) for any two transactions differing in exactly one of {fee amount, gas, fee granter set / removed / replaced, memo, timeout height, message, sequence, account number, chain id}",
+			"quick":    "Ethereum transactions of <= 3 messages by 2 senders in any interleaving (legacy and dynamic-fee), any nonces, any account sequences < 2^62; immediate replay of the accepted transaction; chain binding on the Ethereum route: one legacy (any v < 2^40), access-list or dynamic-fee (any chain id < 2^40) transaction through the signature decorator with go-ethereum's signer selection and chain-id check executed, AllowUnprotectedTxs on/off; execution (real ApplyMessageWithConfig, call or contract creation, any interpreter outcome, 0-3 later messages of the same transaction already accepted by the ante handler) leaves the sender's sequence exactly where the ante handler put it; EIP-712 over a SIGN_MODE_DIRECT sign doc (one bank message, any memo / timeout height / fee / payer / granter / sequence / account number, extension options of either kind): accepted => every such field reaches the sign bytes; legacy EIP-712 (Web3Tx) route: the real VerifySignature hands a different payload to the typed-data construction (or refuses) for any two transactions differing in exactly one of {fee amount, gas, fee granter set / removed / replaced, memo, timeout height, message, sequence, account number, chain id}; account identity across ApplyVestingSchedule (conversion of a plain account, merge into a vesting account; any sequence / account number): address, sequence, account number and public key are kept",
 			"thorough": "<= 4 messages",
 		},
 		Outside:     []string{"signature validity (keccak-256, RLP, secp256k1 recovery, EIP-712 typed-data hashing): cannot be encoded for an SMT solver within reach", "that a signature verifies only for the exact signed content (inside VerifySignature / go-ethereum)", "the plain Cosmos route (SDK SigVerificationDecorator) and the non-legacy EIP-712 path"},
@@ -240,16 +242,21 @@ func Specs() map[string]*PropSpec {
 		Stubs:       []string{"sLedger", "c02Bank", "c04Srv (staking message server)", "authz keeper overrides"},
 	}
 	m["C01"] = &PropSpec{
-		ID: "C01", Pkgs: []string{"./x/evm/statedb", "./app/ante/evm", "./x/evm/types", "./x/evm/keeper", "./x/coinomics/keeper"},
+		ID: "C01", Pkgs: []string{"./x/evm/statedb", "./app/ante/evm", "./x/evm/types", "./x/evm/keeper", "./x/coinomics/keeper", "./app/ante/utils", "./app"},
 		Quick: []Inst{{Pkg: "x/evm/statedb", Fn: "VerifC01_CommitOrder", Params: pm("ops", "2", "kinds", "ts"), EngineReplay: true},
 			{Pkg: "app/ante/evm", Fn: "VerifC01_NodeLocalConfig", Params: pm("msgs", "2")}, {Pkg: "x/evm/types", Fn: "VerifC01_TracerConfig", Params: pm()},
-			{Pkg: "x/evm/keeper", Fn: "VerifC01_BlockHashNoProcessState", Params: pm("lookups", "1"), EngineReplay: true}, {Pkg: "x/coinomics/keeper", Fn: "VerifC13_Mint", Params: pm()}},
+			{Pkg: "x/evm/keeper", Fn: "VerifC01_BlockHashNoProcessState", Params: pm("lookups", "1"), EngineReplay: true}, {Pkg: "x/coinomics/keeper", Fn: "VerifC13_Mint", Params: pm()},
+			{Pkg: "app/ante/utils", Fn: "VerifC01_ClaimRewardsOrder", Params: pm("delegations", "3"), EngineReplay: true}},
 		Thorough: []Inst{{Pkg: "x/evm/statedb", Fn: "VerifC01_CommitOrder", Params: pm("ops", "3", "kinds", "ts", "amts", "1", "vals", "2"), EngineReplay: true},
 			{Pkg: "app/ante/evm", Fn: "VerifC01_NodeLocalConfig", Params: pm("msgs", "3")}, {Pkg: "x/evm/types", Fn: "VerifC01_TracerConfig", Params: pm()},
-			{Pkg: "x/evm/keeper", Fn: "VerifC01_BlockHashNoProcessState", Params: pm("lookups", "2"), EngineReplay: true}, {Pkg: "x/coinomics/keeper", Fn: "VerifC13_Mint", Params: pm()}},
+			{Pkg: "x/evm/keeper", Fn: "VerifC01_BlockHashNoProcessState", Params: pm("lookups", "2"), EngineReplay: true}, {Pkg: "x/coinomics/keeper", Fn: "VerifC13_Mint", Params: pm()},
+			{Pkg: "app/ante/utils", Fn: "VerifC01_ClaimRewardsOrder", Params: pm("delegations", "4"), EngineReplay: true}},
+		Wiring: []WiringFact{{Kind: "mapranges",
+			Callee: "(*github.com/haqq-network/haqq/app.Haqq).BlockedAddrs|(*github.com/haqq-network/haqq/app.Haqq).ModuleAccountAddrs|github.com/haqq-network/haqq/app.GetMaccPerms|(*github.com/haqq-network/haqq/x/evm/statedb.journal).sortedDirties|(github.com/haqq-network/haqq/x/evm/statedb.Storage).SortedKeys|(github.com/haqq-network/haqq/x/evm/keeper.Keeper).GetAvailablePrecompileAddrs|github.com/haqq-network/haqq/ethereum/eip712.sortedJSONKeys|github.com/haqq-network/haqq/app/upgrades/v1.7.5.processAccount",
+			Why:    "the first three build maps / sets from maps at construction time, the next four sort what they collected before anything uses it (sortedDirties / SortedKeys are explored order by order by VerifC01_CommitOrder), processAccount belongs to the historical v1.7.5 upgrade handler whose results are sorted afterwards (its unsynchronised goroutines are outside this technique, see DESIGN)"}},
 		Bounds: map[string]string{
-			"quick":    "StateDB.Commit after every program of <= 2 operations (transfers, SSTOREs) over 3 accounts sharing their first 16 address bytes and 2 slots: all iteration orders of the dirty-account and dirty-storage maps explored; the sequence of keeper writes is ascending in (address, key) for each; node-local configuration: the eth gas-consume decorator in DeliverTx mode on <= 2 messages (any gas, prices, base fee, block gas limit) under two arbitrary values of the operator's max-tx-gas-wanted setting gives the same verdict, transaction gas limit and priority (relational check); building the EVM tracer from the node-local evm.tracer option succeeds for every option value and for calls and contract creations; BLOCKHASH (Keeper.GetHashFn, keeper built by the real NewKeeper): a replica that served <= 1 earlier lookup (any of 2 heights, any subset of the historical entries kept at that time) answers a lookup exactly as a freshly started replica over the same consensus state (any subset kept now, present entries answer their header hash, pruned ones the zero hash); node time zone: the engine gives every process-local time value (time.Unix / UnixMilli / Local()) an arbitrary zone offset in [-12h, +14h] as an environment input, and the coinomics mint step (the state-machine code that reads calendar fields) equals the UTC formula for every offset (VerifC13_Mint, as C13)",
-			"thorough": "<= 3 operations; <= 2 earlier BLOCKHASH lookups",
+			"quick":    "StateDB.Commit after every program of <= 2 operations (transfers, SSTOREs) over 3 accounts sharing their first 16 address bytes and 2 slots: all iteration orders of the dirty-account and dirty-storage maps explored; the sequence of keeper writes is ascending in (address, key) for each; node-local configuration: the eth gas-consume decorator in DeliverTx mode on <= 2 messages (any gas, prices, base fee, block gas limit) under two arbitrary values of the operator's max-tx-gas-wanted setting gives the same verdict, transaction gas limit and priority (relational check); building the EVM tracer from the node-local evm.tracer option succeeds for every option value and for calls and contract creations; BLOCKHASH (Keeper.GetHashFn, keeper built by the real NewKeeper): a replica that served <= 1 earlier lookup (any of 2 heights, any subset of the historical entries kept at that time) answers a lookup exactly as a freshly started replica over the same consensus state (any subset kept now, present entries answer their header hash, pruned ones the zero hash); node time zone: the engine gives every process-local time value (time.Unix / UnixMilli / Local()) an arbitrary zone offset in [-12h, +14h] as an environment input, and the coinomics mint step (the state-machine code that reads calendar fields) equals the UTC formula for every offset (VerifC13_Mint, as C13); fee path of both ante routes (ClaimStakingRewardsIfNecessary, <= 3 delegations, any rewards / fee / balance): under every iteration order of every Go map the code ranges over, the delegations whose rewards are withdrawn are the shortest store-order prefix covering the shortfall; coverage guard: no function of the application's own packages ranges over a Go map outside an audited list of 8",
+			"thorough": "<= 3 operations; <= 2 earlier BLOCKHASH lookups; <= 4 delegations",
 		},
 		Outside:     []string{"equality of app hashes of two replicas over block histories (BaseApp, IAVL, all modules)", "goroutine-fed counters (app/tps_counter.go): concurrency", "fixed Begin/EndBlocker ordering and sorted module-account construction in app.go (construction-time facts)"},
 		Assumptions: []string{"Go map iteration order modelled as an arbitrary permutation chosen per range statement", "counterexamples are confirmed by concrete re-execution with the same iteration order (a native run cannot fix the order)", "BLOCKHASH harness: tmtypes.HeaderFromProto / Header.Hash replaced by an injective tag of (height, app hash byte); the staking keeper's historical entries are a map stub; sync.Map modelled as a plain map (single-threaded)"},
@@ -273,11 +280,11 @@ func Specs() map[string]*PropSpec {
 	m["C16"] = &PropSpec{
 		ID: "C16", Pkgs: []string{"./precompiles/staking", "./precompiles/bank", "./precompiles/distribution", "./precompiles/ics20"},
 		Quick: []Inst{ps("VerifC04_Identity"), {Pkg: "precompiles/bank", Fn: "VerifC16_Bank", Params: pm(), EngineReplay: true}, {Pkg: "precompiles/distribution", Fn: "VerifC04_Distribution", Params: pm(), EngineReplay: true},
-			{Pkg: "precompiles/ics20", Fn: "VerifC04_Ics20", Params: pm("checkSupply", "0"), EngineReplay: true}, ps("VerifC16_StakingQueries", "entries", "2"), {Pkg: "precompiles/staking", Fn: "VerifC08_PrecompileCreateValidator", Params: pm(), EngineReplay: true}},
+			{Pkg: "precompiles/ics20", Fn: "VerifC04_Ics20", Params: pm("checkSupply", "0"), EngineReplay: true}, {Pkg: "precompiles/ics20", Fn: "VerifC16_Ics20AliasDenom", Params: pm(), EngineReplay: true}, ps("VerifC16_StakingQueries", "entries", "2"), {Pkg: "precompiles/staking", Fn: "VerifC08_PrecompileCreateValidator", Params: pm(), EngineReplay: true}},
 		Thorough: []Inst{ps("VerifC16_StakingQueries", "entries", "3"), ps("VerifC04_Identity"), {Pkg: "precompiles/bank", Fn: "VerifC16_Bank", Params: pm(), EngineReplay: true}, {Pkg: "precompiles/distribution", Fn: "VerifC04_Distribution", Params: pm(), EngineReplay: true},
-			{Pkg: "precompiles/ics20", Fn: "VerifC04_Ics20", Params: pm("checkSupply", "0"), EngineReplay: true}},
+			{Pkg: "precompiles/ics20", Fn: "VerifC04_Ics20", Params: pm("checkSupply", "0"), EngineReplay: true}, {Pkg: "precompiles/ics20", Fn: "VerifC16_Ics20AliasDenom", Params: pm(), EngineReplay: true}},
 		Bounds: map[string]string{
-			"quick":    "staking delegate / undelegate: the message handed to the staking module is exactly the native message with the call's fields, exactly once, nothing handed over on failure (all identity / grant combinations of C04); distribution methods: the module is asked exactly once for exactly the named account; ICS-20 transfer: the MsgTransfer handed to the transfer module carries exactly the call's port, channel, token, sender, receiver, timeout and memo; staking read-only delegation / unbondingDelegation (<= 2 entries) / validator: the native query is asked for exactly the call's arguments and every field of an arbitrary native answer appears unchanged in the output; bank precompile balances / totalSupply / supplyOf over 4 denominations with symbolic registration (2^4) and symbolic amounts",
+			"quick":    "staking delegate / undelegate: the message handed to the staking module is exactly the native message with the call's fields, exactly once, nothing handed over on failure (all identity / grant combinations of C04); distribution methods: the module is asked exactly once for exactly the named account; ICS-20 transfer: the MsgTransfer handed to the transfer module carries exactly the call's port, channel, token, sender, receiver, timeout and memo; staking read-only delegation / unbondingDelegation (<= 2 entries) / validator: the native query is asked for exactly the call's arguments and every field of an arbitrary native answer appears unchanged in the output; bank precompile balances / totalSupply / supplyOf over 4 denominations with symbolic registration (2^4) and symbolic amounts; ICS-20 transfer of the bond denomination named by a registered ERC20 alias, by a contract that received value in the same transaction: same final bank balances and supply as the native message",
 			"thorough": "same",
 		},
 		Outside:     []string{"the module servers themselves (identical object on both sides, their behaviour cancels)", "ABI byte encoding (go-ethereum reflection)", "staking validators / redelegation(s) and the distribution read-only queries (paginated list converters; not harnessed)", "haqq's ICS-20 wrapper keeper (ERC-20 auto-conversion before the transfer) is behind the overridden Transfer"},
@@ -285,14 +292,14 @@ func Specs() map[string]*PropSpec {
 		Stubs:       []string{"c16Bank", "c16 registry"},
 	}
 	ek := func(fn string) Inst { return Inst{Pkg: "x/erc20/keeper", Fn: fn, Params: pm(), EngineReplay: true} }
-	c10 := []Inst{ek("VerifC10_ConvertCoin"), ek("VerifC10_ConvertERC20"), ek("VerifC10_Adversarial"), ek("VerifC10_Hook"), ek("VerifC10_HookUntrustedLog"), ek("VerifC10_OnRecvPacket")}
+	c10 := []Inst{ek("VerifC10_ConvertCoin"), ek("VerifC10_ConvertERC20"), ek("VerifC10_Adversarial"), ek("VerifC10_Hook"), ek("VerifC10_HookUntrustedLog"), ek("VerifC10_OnRecvPacket"), {Pkg: "x/bank/keeper", Fn: "VerifC10_BankSendWrapper", Params: pm(), EngineReplay: true}}
 	m["C10"] = &PropSpec{
-		ID: "C10", Pkgs: []string{"./x/erc20/keeper"}, Quick: c10, Thorough: c10,
+		ID: "C10", Pkgs: []string{"./x/erc20/keeper", "./x/bank/keeper"}, Quick: c10, Thorough: c10,
 		Bounds: map[string]string{
-			"quick":    "one conversion from an arbitrary fully backed state of one pair (coin-origin and ERC20-origin), amounts and balances < 2^100: MsgConvertCoin, MsgConvertERC20 against the honest contract ledger; both messages against an adversarial contract (every call: arbitrary revert / return value / reported balance / Approval log); the EVM hook over receipts of <= 2 logs (registered / unregistered contract x Transfer / Approval / unknown event x recipient module / other x amount); the hook against a registered contract that emits an unbacked Transfer log; the IBC receive middleware OnRecvPacket after the vouchers were credited (honest token, possibly paused; module enabled or not; any received amount): a success acknowledgement is returned only over a consistent, fully backed state",
+			"quick":    "one conversion from an arbitrary fully backed state of one pair (coin-origin and ERC20-origin), amounts and balances < 2^100: MsgConvertCoin, MsgConvertERC20 against the honest contract ledger; both messages against an adversarial contract (every call: arbitrary revert / return value / reported balance / Approval log); the EVM hook over receipts of <= 2 logs (registered / unregistered contract x Transfer / Approval / unknown event x recipient module / other x amount); the hook against a registered contract that emits an unbacked Transfer log; the IBC receive middleware OnRecvPacket after the vouchers were credited (honest token, possibly paused; module enabled or not; any received amount): a success acknowledgement is returned only over a consistent, fully backed state; bank MsgSend wrapper (subUnlockedERC20Tokens) against a token that reports arbitrary balances, returns true / false from transfer and may emit an Approval: for a foreign (ERC20-origin) token the send succeeds only if the receiver was credited exactly the amount, transfer returned true and no Approval was emitted",
 			"thorough": "same",
 		},
-		Outside:     []string{"the Solidity bytecode of ERC20MinterBurnerDecimals (its ledger semantics are the stub)", "the acknowledgement / timeout IBC callbacks, the bank-send wrapper and pair toggles (they end in ConvertCoin / ConvertERC20, decided here); packet JSON decoding and bech32 re-prefixing on receive", "sequences of conversions (each step is proved from an arbitrary backed state: inductive)"},
+		Outside:     []string{"the Solidity bytecode of ERC20MinterBurnerDecimals (its ledger semantics are the stub)", "the acknowledgement / timeout IBC callbacks and pair toggles (they end in ConvertCoin / ConvertERC20, decided here); packet JSON decoding and bech32 re-prefixing on receive", "sequences of conversions (each step is proved from an arbitrary backed state: inductive)"},
 		Assumptions: []string{"abi.ABI Pack / Unpack / UnpackIntoInterface / EventByID replaced by passing Go values", "EVM keeper (interface) = token contract stub; bank keeper = ledger stub", "counterexamples confirmed by concrete re-execution in the SSA interpreter"},
 		Stubs:       []string{"c10EVM (token contract: honest ledger / adversarial)", "c10Bank", "c10AK"},
 	}
